@@ -1213,6 +1213,8 @@ package mcp
 //@   track connectSSE as reconnect
 //@   track (*streamableClientConn).fail as failConn
 //@   track ctx.Err as cancelled
+//@   ghostvar progressed bool = false
+//@   on call processStreamFrom: progressed = ($result.0 != "" && $result.0 != cursor)
 //@   ghostvar cursor string = ""
 //@   on call processStreamFrom: cursor = ($result.0 != "" ? $result.0 : cursor)
 //@   requires c != nil && resp != nil
@@ -1221,6 +1223,9 @@ package mcp
 //@   assert at call connectSSE: @resumes-from-the-last-complete-event $2 == cursor
 //@   ensures @gives-up-only-when-unresumable forCall != nil ==> lastResult(body, 2) || cursor == "" || calls(failConn) >= 1 || (calls(cancelled) >= 1 && lastResult(cancelled, 0) != nil)
 //@   loop 1: invariant @cursor-is-carried-along local(lastEventID) == cursor && calls(failConn) == 0 && local(resp) != nil
+// The retry budget is spent only by bodies that brought no new event: after a body that moved the cursor (event ids are
+// opaque strings - any id different from the cursor is progress) the count of retries without progress is zero again.
+//@   loop 1: invariant @only-bodies-without-a-new-event-use-up-the-retry-budget (calls(body) >= 1 && progressed ==> local(retriesWithoutProgress) == 0) && local(prevLastEventID) == cursor
 
 // processStreamFrom reads one HTTP body of a logical stream whose cursor so far is resumeID. The cursor it hands back
 // is the id of the last event received in this body, or resumeID if the body brought none: a cursor is never
